@@ -827,6 +827,7 @@ static int run_cmd(struct ctx *c, char **t, int nt) {
         { static const char *const gn[3] = { "a", "g1", "grp22" }; int br = round ? (a / 3) % 4 < 2 : (a / 3) % 2 == 0;
           snprintf(g, sizeof g, br ? "[%s]" : "%s", gn[a % 3]); }
         snprintf(k, sizeof k, "k%d", a); if (a % 7 == 3) gp = NULL;
+        if (a == 5 || a == 10) snprintf(k, sizeof k, "_none_");      /* a key like any other (two sections; a == 10: group-less) */
         if (!strcmp(T, "Int")) { int32_t v = (int32_t)(uint32_t)b, r = 0; if (!round) e2 = econf_setIntValue(kf, gp, k, v); else { e2 = es ? es : econf_getIntValue(q, gp, k, &r); ok = !e2 && r == v; } }
         else if (!strcmp(T, "UInt")) { uint32_t v = (uint32_t)b, r = 0; if (!round) e2 = econf_setUIntValue(kf, gp, k, v); else { e2 = es ? es : econf_getUIntValue(q, gp, k, &r); ok = !e2 && r == v; } }
         else if (!strcmp(T, "Int64")) { int64_t v = (int64_t)b, r = 0; if (!round) e2 = econf_setInt64Value(kf, gp, k, v); else { e2 = es ? es : econf_getInt64Value(q, gp, k, &r); ok = !e2 && r == v; } }
